@@ -53,6 +53,50 @@ CHECKS = {
         note="Finite alphabet of chunk/utterance lengths; merging by canonical state with NaN-poisoned "
              "dead regions (as C01).",
         design="3/C04"),
+    "C08": dict(
+        level="exploration", engine="L-lattice",
+        technique="exhaustive enumeration of the alias registry, of every class tree with <=5 (thorough 7) "
+                  "classes x alias-sharing pairs x query roots, and of nested JSON configuration trees",
+        text="The whole registry (__subclasses__ of the six families, every alias, per-family resolution, "
+             "unknown aliases) is walked; alias shadowing is decided on EVERY creation-ordered class tree up "
+             "to the bound under a private root with the oracle 'created last wins'; the "
+             "alias_factory_subclass_from_arg contract over mapping types; JSON-round-tripped nested "
+             "configurations (computer x bank alias x scale alias x window alias) vs explicit construction "
+             "(array_equal features).",
+        note="Hierarchies are trees (no multiple-inheritance DAGs); creating classes is global state, so "
+             "each hierarchy lives under a fresh private root.",
+        design="3/C08"),
+    "C18": dict(
+        level="exploration", engine="L-lattice",
+        technique="bounded-exhaustive lattice (length x dtype x coefficient x in_place x memory layout x "
+                  "seed) against an explicit float64 recurrence and exact noise algebra",
+        text="Preemphasize: every N 0..6 x 5 dtypes x coefficients x in_place x layouts equals the explicit "
+             "loop computed in float64 and cast back, input untouched unless in_place. Dither: seeds 0..31 "
+             "reproducible, apply(x)-x independent of x (to 8 ulp of max|x|), exactly linear in coeff on a "
+             "zero signal, coeff 0 identity; fixed-seed mean/std inside 6 standard errors.",
+        note="The distributional claim is checked as a deterministic fixed-seed computation (DESIGN 4).",
+        design="3/C18"),
+    "C19": dict(
+        level="exploration", engine="L-lattice",
+        technique="exhaustive evaluation of a stated finite grid (every 0.25 Hz in [0,1e5] + ulp "
+                  "neighbourhoods of the Bark break-points + parameter lattice) with adjacency monotonicity",
+        text="Round trips both ways to 1e-9, strict increase between every pair of adjacent grid points, "
+             "continuity at the Bark break-points, agreement with independently re-implemented published "
+             "mel/Bark formulas, 1000 Hz = 1000 mel +- 0.02, OctaveScaling(low_hz<=0) rejected.",
+        note="'All real frequencies' is represented by the grid; at the +-64 ulp neighbourhoods only "
+             "'no drop beyond 8 ulp' is demanded (adjacent floats may map to one value).",
+        design="3/C19"),
+    "C20": dict(
+        level="exploration", engine="L-lattice",
+        technique="exhaustive enumeration of widths 0..4096 x window classes/parameters, of the "
+                  "circshift_fourier argument lattice (shift theorem oracle) and a probability grid",
+        text="Every width x window: length, closed form vs numpy shape / documented area, non-negativity, "
+             "sum = 1+O(1/width), gamma closed form and arg-max band. circshift_fourier: dft_size 1..12 and "
+             "None x segment length x start_idx x shift -2D..2D x copy x dtype: ifft(pad(out)) == "
+             "roll(ifft(pad(in)), shift). gauss_quant vs erfc bisection (lower tail + symmetry), monotone, "
+             "affine in mu/std; angular/hertz inverses.",
+        note="numpy.fft and math.erfc trusted; tolerances as corrected in DESIGN 3/C20.",
+        design="3/C20"),
 }
 
 NOT_YET = "check not built yet in this session (see DESIGN.md section 3 for the planned design)"
